@@ -1,15 +1,26 @@
 /* C07 (w15): split_line (lib/util/src/split_line.c), UNBOUNDED: every line of
- * `len` bytes, len symbolic in [0, SPLIT_MAX] (cap 4095 text bytes + the
- * terminator position = a 4096-byte object), fully symbolic contents
+ * `len` bytes, len symbolic in [0, SPLIT_MAX], fully symbolic contents
  * (embedded NULs, quotes, backslashes), both separator sets used in the tree
  * (" \t" and ","). All five input-driven loops of split_line are closed by
  * the loop contracts of contracts/loops/C07_w15.tbl (assigns / invariant /
  * decreases), nothing is unwound except strchr() over the 1- or 2-byte
  * separator literal (complete, unwinding assertion).
  *
- * The line object has exactly len+1 bytes: [0,len) the text and [len] the
- * byte the callers guarantee to exist (the NUL of the string, or ']' for the
- * flag list of the sort file). Any access outside is a pointer-check failure.
+ * Cap (tool limit, see cases_extra_w15.py): the invariants are cap-free, but
+ * the SAT problem (array theory over the line object, havocked by three
+ * nested loop contracts) is decided in reasonable time only for SPLIT_MAX <=
+ * 63 with the exact object; with the fixed object 1023 takes 5-8 min and the
+ * full cap 4095 (a 4096-byte object) 38 min.
+ *
+ * Two object models:
+ *  default    the line object has exactly len+1 bytes: [0,len) the text and
+ *             [len] the byte the callers guarantee to exist (the NUL of the
+ *             string, or ']' for the flag list of the sort file). Any access
+ *             outside is a pointer-check failure.
+ *  SL_FIXED   an object of SPLIT_MAX+1 bytes with the line right-aligned in
+ *             it: line[len] is the last byte of the object, so an overrun
+ *             at the top is a pointer-check failure; the bottom is guarded by
+ *             the invariants (src, dst >= line).
  *
  * Token list: realloc makes the stored pointers opaque to the tool, so the
  * list is ONE typed object g_sl (the split_line_t header; natively with
@@ -98,15 +109,16 @@ split_line_t *stub_append_arg(split_line_t *in, char *arg)
 	VERIF_ASSERT(in == &g_sl.s && g_sl_live == 1, "C07.split_unb.realloc_valid");
 	VERIF_ASSERT(in->count + 1 <= (g_sl_len0 + 1) / 2, "C07.split_unb.capacity");
 	VERIF_ASSERT(VERIF_SAME_OBJECT(arg, g_sl_line) &&
-		     VERIF_POINTER_OFFSET(arg) < g_sl_len0 &&
-		     VERIF_POINTER_OFFSET(arg) >= g_sl_prev,
+		     VERIF_POINTER_OFFSET(arg) >= VERIF_POINTER_OFFSET(g_sl_line) &&
+		     VERIF_POINTER_OFFSET(arg) - VERIF_POINTER_OFFSET(g_sl_line) < g_sl_len0 &&
+		     VERIF_POINTER_OFFSET(arg) - VERIF_POINTER_OFFSET(g_sl_line) >= g_sl_prev,
 		     "C07.split_unb.args_in_line");
 	if (verif_nd_bool("append_fails")) {
 		g_sl_live = 0;
 		g_sl_frees += 1;
 		return NULL;
 	}
-	g_sl_prev = VERIF_POINTER_OFFSET(arg) + 1;
+	g_sl_prev = VERIF_POINTER_OFFSET(arg) - VERIF_POINTER_OFFSET(g_sl_line) + 1;
 	in->count += 1;
 	return in;
 }
@@ -135,8 +147,18 @@ void harness(void)
 	g_sep1 = ws ? '\t' : ',';
 
 	VERIF_ASSUME(len <= SPLIT_MAX);
+#ifdef SL_FIXED
+	/* fixed-size object, the line right-aligned in it: line[len] is the
+	 * last byte of the object */
+	{
+		char *obj = malloc(SPLIT_MAX + 1);
+		VERIF_ASSUME(obj != NULL);
+		line = obj + (SPLIT_MAX - len);
+	}
+#else
 	line = malloc(len + 1);
 	VERIF_ASSUME(line != NULL);
+#endif
 	g_sl_len0 = len;
 	g_sl_line = line;
 	g_sl_prev = 0;
